@@ -83,6 +83,14 @@ MUTANTS = [
     ("C17", "seeded C17o-2: format() differs from repr()", "@patch", "/verif/seeded/C17o-2/patch.diff", None),
     ("C18", "seeded C18o-1: non-square matrix part shown with the wrong shape", "@patch", "/verif/seeded/C18o-1/patch.diff", None),
     ("C18", "seeded C18o-2: buffer left dirty when the sink panics", "@patch", "/verif/seeded/C18o-2/patch.diff", None),
+    # ---- round 13 (informed adversaries) -------------------------------------------------------------------------------
+    ("C05", "seeded C05r-1: large static Jacobian filled column-major", "@patch", "/verif/seeded/C05r-1/patch.diff", None),
+    ("C05", "seeded C05r-2: repeated indices lose seeds beyond 8 variables", "@patch", "/verif/seeded/C05r-2/patch.diff", None),
+    ("C16", "seeded C16r-1: f32 presented for an f64 part goes through decimal text", "@patch", "/verif/seeded/C16r-1/patch.diff", None),
+    ("C17", "seeded C17r-1: RuntimeWarning for out-of-domain functions", "@patch", "/verif/seeded/C17r-1/patch.diff", None),
+    ("C17", "seeded C17r-2: blocked gradient beyond 32 variables", "@patch", "/verif/seeded/C17r-2/patch.diff", None),
+    ("C18", "seeded C18r-1: matrix of dual-number entries shown with the wrong shape", "@patch", "/verif/seeded/C18r-1/patch.diff", None),
+    ("C18", "seeded C18r-2: wide matrix fallback permutes entries", "@patch", "/verif/seeded/C18r-2/patch.diff", None),
     # ---- C17: conformance (fault-free) ---------------------------------------------------------------------
     ("C17", "arcsin forwards to asinh", "src/python_macro.rs", "self.0.asin().into()", "self.0.asinh().into()"),
     ("C17", "reflected subtraction with swapped operands", "src/python_macro.rs", "(-self.0.clone() + lhs).into()", "(self.0.clone() - lhs).into()"),
@@ -105,6 +113,9 @@ MUTANTS = [
 # brackets, spacing, line breaks).  The check must stay silent on them (exit 0): they guard against an oracle
 # that demands more than the property states.
 CONTROLS = [
+    # changes judged NOT to break the property as stated (recorded in DESIGN.md section 9): the checks stay silent on them
+    ("C16", "seeded C16r-2: integers refused for float parts (legitimate strictness)", "@patch", "/verif/seeded/C16r-2/patch.diff", None),
+    ("C17", "seeded C17o-1: __eq__ / __hash__ on the real part (mirrors Rust's PartialEq)", "@patch", "/verif/seeded/C17o-1/patch.diff", None),
     # C16 promises names, values and completeness - not the order of the fields, the struct's name, or strictness
     ("C16", "Dual: fields declared (and therefore written) in another order", "@patch", "/verif/tools/controls16/k1_fields_declared_in_another_order.diff", None),
     ("C16", "Dual2: an alias accepted on input", "@patch", "/verif/tools/controls16/k2_alias_accepted.diff", None),
